@@ -57,6 +57,7 @@ def run(ctx):
         ctx.guard(last_index_tests, ctx, cfg, fs)
         ctx.guard(hide, ctx, cfg, fs)
         ctx.guard(group_push, ctx, cfg, fs)
+        ctx.guard(push_helpers_write_only, ctx, cfg, fs)
         ctx.guard(prefix_table, ctx, cfg, fs)
         import c10, c08
         # "never a help screen": fallback_to_usage answers only a line that was empty BEFORE parsing (shared with C10)
@@ -458,6 +459,22 @@ def prefix_table(ctx, cfg, fs):
                             bad.append('%s arm writes %r at %s' % (v, s_.text(), s_.where()))
     ctx.ob('E.hints', 'Prefix:dashes-match-the-kind-of-name', all(seen.values()) and not bad,
            'renderings of Prefix: Short -> `-{}=..` (%d site(s)), Long -> `--{}=..` (%d site(s)): %s' % (seen['Short'], seen['Long'], bad or 'ok'), cfg=cfg)
+
+def push_helpers_write_only(ctx, cfg, fs):
+    """the push_* helpers record a hint for the level they are called at; which hints survive is decided later, per depth, by
+    Complete::complete.  A helper that looks at the hints collected so far (to de-duplicate, say) compares across levels: the
+    same flag declared on an outer level and inside the subcommand being completed is then recorded once - for the outer level,
+    which the depth filter drops.  The helpers only ever push: no read access to the list of collected hints."""
+    READS = r'(Vec::<.*>|slice::<impl \[T\]>)::(iter|iter_mut|contains|last|last_mut|first|len|is_empty|retain|retain_mut|dedup\w*|binary_search\w*|get|get_mut|pop|remove|drain|truncate|clear)$|IntoIterator>?::into_iter$'
+    n = 0; bad = []
+    for path, b in sorted(fs.bodies.items()):
+        if not re.search(r'complete_gen::<impl args::inner::State>::push_(flag|argument|command|metavar|value|pos_sep|shell)$|complete_gen::Complete::push_\w+$', path.split('::{closure')[0]):
+            continue
+        n += 1
+        for c in b.calls():
+            if c.is_(READS) and 'Comp' in c.full and not re.search(r'CompExtra', c.full.replace('Vec<complete_gen::Comp>', '')):
+                bad.append('%s in %s' % (c.name.split('::')[-1], short(path)))
+    ctx.ob('E.hints', 'push-helpers:never-read-collected-hints', n >= 5 and not bad, '%d push helper bodies; read accesses to the collected hints: %s' % (n, sorted(set(bad)) or 'none'), cfg=cfg)
 
 def group_push(ctx, cfg, fs):
     """State::push_with_group hands the hints collected inside a group_help wrapper back to the completion state.  The title only LABELS
